@@ -96,6 +96,40 @@ def generate(repo, out_dir):
         raise AnalysisError("driver produced no facts for crates: %s" % missing)
 
 
+KEEP_ENTRIES = 48
+MIN_AGE_S = 3 * 3600
+
+
+def _prune_cache(keep=()):
+    """drop old cache entries; concurrent checks share this directory, so nothing younger than MIN_AGE_S is ever
+    touched (a facts dir may be in use, a facts_* temp dir may be mid-generation) and every step tolerates races"""
+    now = time.time()
+    ents = []
+    try:
+        names = os.listdir(CACHE)
+    except OSError:
+        return
+    for e in names:
+        if e.startswith("."):
+            continue
+        pth = os.path.join(CACHE, e)
+        try:
+            if os.path.isdir(pth):
+                ents.append((os.path.getmtime(pth), pth, e))
+        except OSError:
+            continue
+    ents.sort(reverse=True)
+    for i, (mt, pth, e) in enumerate(ents):
+        if e in keep or now - mt < MIN_AGE_S:
+            continue
+        if i >= KEEP_ENTRIES or e.startswith("facts_"):
+            shutil.rmtree(pth, ignore_errors=True)
+            try:
+                os.unlink(os.path.join(CACHE, ".lock-" + e))
+            except OSError:
+                pass
+
+
 def ensure_facts(repo=REPO):
     """returns (facts_dir, hash, seconds spent generating (0 if cached))"""
     os.makedirs(CACHE, exist_ok=True)
@@ -105,30 +139,26 @@ def ensure_facts(repo=REPO):
     fcntl.flock(lock, fcntl.LOCK_EX)
     try:
         if os.path.exists(os.path.join(d, ".complete")):
+            try:
+                os.utime(d)          # in use: keeps it out of reach of a concurrent prune
+            except OSError:
+                pass
             return d, h, 0.0
         t0 = time.time()
         tmp = tempfile.mkdtemp(prefix="facts_", dir=CACHE)
         try:
             generate(repo, tmp)
             open(os.path.join(tmp, ".complete"), "w").write(h)
-            if os.path.exists(d):
-                shutil.rmtree(d)
-            os.rename(tmp, d)
+            if os.path.exists(os.path.join(d, ".complete")):
+                shutil.rmtree(tmp, ignore_errors=True)      # somebody else completed it meanwhile: never replace a dir in use
+            else:
+                if os.path.exists(d):
+                    shutil.rmtree(d, ignore_errors=True)    # incomplete leftover of a crashed run
+                os.rename(tmp, d)
         except Exception:
             shutil.rmtree(tmp, ignore_errors=True)
             raise
-        # keep the cache small: drop all but the 6 newest entries
-        ents = [os.path.join(CACHE, e) for e in os.listdir(CACHE) if not e.startswith(".")]
-        ents = [e for e in ents if os.path.isdir(e)]
-        ents.sort(key=lambda e: os.path.getmtime(e), reverse=True)
-        for e in ents[16:]:
-            shutil.rmtree(e, ignore_errors=True)
-        for lf in os.listdir(CACHE):
-            if lf.startswith(".lock-") and lf[6:] not in [os.path.basename(e) for e in ents[:16]] and lf[6:] != h:
-                try:
-                    os.unlink(os.path.join(CACHE, lf))
-                except OSError:
-                    pass
+        _prune_cache(keep={h})
         return d, h, time.time() - t0
     finally:
         fcntl.flock(lock, fcntl.LOCK_UN)
